@@ -44,7 +44,11 @@ def run(ctx):
     blocks = 150 if q else 400
     lines, sums = [], []
     for extra in (["-maxvals", "3"], ["-maxvals", "2", "-extranodes", "1"], ["-maxvals", "1"],
-                  ["-maxvals", "3", "-maxperentity", "2", "-extranodes", "2"]):
+                  ["-maxvals", "3", "-maxperentity", "2", "-extranodes", "2"],
+                  # VRF beacon backend: committee elections from VRF proofs (per-entity de-duplication and ordering by hashed
+                  # betas); with a threshold of 5 proofs some epochs have a low-quality alpha and must elect no committee
+                  ["-vrf", "-epoch", "6", "-validators", "5", "-maxgroup", "3"],
+                  ["-vrf", "-epoch", "6", "-validators", "5", "-maxgroup", "3", "-vrfthreshold", "5", "-maxvals", "4"]):
         ls, ss = cc.run_scenarios(ctx, [ctx.seed * 1000 + 100 * len(sums) + i for i in range(n)], blocks, extra=extra)
         lines += ls
         sums += ss
